@@ -16,7 +16,7 @@ META = {
             "public declarations. One obligation per variant / call site. S6-S8 qualified values, import namespaces (see DESIGN). S9 no castable node consists of exactly one node of its own kind (lib/shape.py: children of every finish_node site), so AstPtr = (kind, range) identifies a binder; S10 a NameRef under MODULE_NAME_REF is resolved as a module before the value namespace is tried; S11 the pattern of a let / use statement is lowered whatever its right-hand side is. S12 lower_expr_stmt never hands its statement list to a nested call of itself; S13 a module resolution for the base of `base.label` is recorded only after the base's type was tested. S15 a qualified type name never falls back to the unqualified lookup. S14 module_name builds the ModuleMap keys positionally (no component is compared with a directory name). S20 once the base of `base.label` resolved as an imported module the module resolution is recorded on every path (not only when the member resolves).",
     "explanation": "Decides the construction shape that Gleam's scoping rules require (innermost binder wins, a let binder is not visible "
                    "in its own initialiser, clause/lambda/use bindings do not escape, values and types are separate namespaces). That "
-                   "the classifier maps every syntactic position to the right lookup is behavioural and not decided.",
+                   "the classifier maps every syntactic position to the right lookup is behavioural and not decided. S25 = C18 X18 (resolve_import tests visibility declaration by declaration).",
     "not_decided": "correctness of classify_node for every position; resolution through imports for every program (generated programs needed).",
     "trusted_base": ["rustc MIR", "Gleam's scoping rules as stated in the property"],
     "assumptions": [],
